@@ -156,3 +156,13 @@ Theorem C14_tz_order m1 e1 m2 e2 : -1074 <= e1 -> -1074 <= e2 ->
   (tz m1 e1 <= tz m2 e2 <-> (D2Q (Dy m1 e1) <= D2Q (Dy m2 e2))%Q).
 Proof. exact (tz_order m1 e1 m2 e2). Qed.
 Print Assumptions C14_tz_order.
+
+(* Controller.add_hook: every requested hook class ends up registered exactly once (exact-class membership),
+   independently of subclasses already present *)
+Theorem C14_add_hooks_spec requests hooks :
+  NoDup hooks ->
+  NoDup (add_hooks requests hooks) /\
+  (forall c, In c (add_hooks requests hooks) <-> In c hooks \/ In c requests) /\
+  exists tail, add_hooks requests hooks = hooks ++ tail.
+Proof. exact (add_hooks_spec requests hooks). Qed.
+Print Assumptions C14_add_hooks_spec.
